@@ -56,7 +56,12 @@ class BbRun(object):
                 t = it.activity_type
                 has_prev = t == "WRITE"
                 has_cur = t in ("WRITE", "INITIALISED", "READ", "ACCESSED", "NO_OVERWRITE")
-                items.append("%s,%s,%s,%s,%s" % (it.key, self.cid(it.client_id), t, rec_val(it.previous_value, has_prev),
+                # the record carries the client's id AND its name (names may span lines): a wrong name marks the record
+                who = str(self.cid(it.client_id))
+                cl = next((c for c in self.clients if c.unique_identifier == it.client_id), None)
+                if cl is not None and it.client_name != object.__getattribute__(cl, "name"):
+                    who += "!name"
+                items.append("%s,%s,%s,%s,%s" % (it.key, who, t, rec_val(it.previous_value, has_prev),
                                                  rec_val(it.current_value, has_cur)))
             out.append("A %d %s" % (st.maximum_size, ";".join(items)))
         return out
@@ -90,7 +95,7 @@ class BbRun(object):
         C = self.clients
         opt = lambda x: None if x == "-" else x  # noqa: E731
         if op == "new":
-            c = Client(name="c%d" % len(C), namespace=opt(t[1]))
+            c = Client(name=("c%d" if len(C) % 2 == 0 else "c\n%d") % len(C), namespace=opt(t[1]))
             object.__setattr__(c, "required", SortedSet())
             self.idx[c.unique_identifier] = len(C)
             C.append(c)
@@ -258,6 +263,25 @@ def name_step(line):
                     parts.append(str(ca.absolute_name(ka)))
                 except Exception as e:  # noqa: B902
                     parts.append(err_kind(e))
+                X = Access.EXCLUSIVE_WRITE
+                # rejected re-registration of the remapped key
+                Blackboard.clear()
+                ca, cb = Client(name="a", namespace=d(t[1])), Client(name="b")
+                res(lambda: ca.register_key(key=ka, access=W, remap_to=loc))
+                res(lambda: cb.register_key(key=own, access=X))
+                res(lambda: cb.register_key(key=loc, access=W))
+                res(lambda: setattr(cb, loc, 1))
+                r = res(lambda: ca.register_key(key=ka, access=W))
+                parts.append(r + "," + res(lambda: getattr(ca, ka)))
+                # unregister + plain re-registration while somebody else still uses the target
+                Blackboard.clear()
+                ca, cb = Client(name="a", namespace=d(t[1])), Client(name="b")
+                res(lambda: ca.register_key(key=ka, access=W, remap_to=loc))
+                res(lambda: cb.register_key(key=loc, access=W))
+                res(lambda: ca.unregister_key(ka, clear=True))
+                res(lambda: ca.register_key(key=ka, access=W))
+                res(lambda: setattr(ca, ka, 5))
+                parts.append(res(lambda: Blackboard.get(own)) + "," + res(lambda: Blackboard.get(loc)))
                 return "R " + "|".join(parts)
             finally:
                 Blackboard.clear()
